@@ -195,6 +195,7 @@ def parse_dump(line):
         return None, ("bad-record", line[:80]), None
     toks = []
     err = None
+    ends = []
     for p in parts[1:]:
         if p.startswith("!"):
             f = p[1:].split(",")
@@ -206,6 +207,7 @@ def parse_dump(line):
         f = p.split(",")
         kind = f[0]
         val = f[1]
+        ends.append(int(f[6]) if len(f) > 6 else None)
         if kind == "InterpStrLiteral":
             hx, _, sl = val.partition("/")
             slots = [tuple(int(x) for x in s.split("-")) for s in sl.split(";") if s]
@@ -215,4 +217,55 @@ def parse_dump(line):
         else:
             val = ""
         toks.append((kind, val, int(f[2]), int(f[3])))
-    return toks, err, None
+    return toks, err, ends
+
+
+def dropped_input(text, toks, ends):
+    """Model-free accounting oracle: between the end of one token and the start of the next
+    (and after the last token) the lexer may skip only layout - whitespace, comments,
+    newlines and `;`.  Returns the first silently dropped character (with its offset) or None.
+    `ends` are byte offsets of the first unread character after each token (from the hook)."""
+    raw = text.encode("utf-8")
+    # byte offset of each (line, col)
+    line_starts = [0]
+    for i, ch in enumerate(text):
+        if ch == "\n":
+            line_starts.append(i + 1)
+    char_to_byte = [0]
+    acc = 0
+    for ch in text:
+        acc += len(ch.encode("utf-8"))
+        char_to_byte.append(acc)
+
+    def start_byte(line, col):
+        if col == 0:
+            ci = line_starts[line - 1] - 1     # the newline character itself
+        else:
+            ci = line_starts[line - 1] + col - 1
+        return char_to_byte[ci] if 0 <= ci < len(char_to_byte) else None
+
+    def layout_only(b0, b1):
+        seg = raw[b0:b1].decode("utf-8", "replace")
+        i = 0
+        while i < len(seg):
+            ch = seg[i]
+            if ch in " \t\r\x0c\n;":
+                i += 1
+            elif ch == "#":
+                while i < len(seg) and seg[i] != "\n":
+                    i += 1
+            else:
+                return (ch, b0 + len(seg[:i].encode("utf-8")))
+        return None
+    prev_end = 0
+    for (kind, val, line, col), end in zip(toks, ends):
+        sb = start_byte(line, col)
+        if sb is None or end is None:
+            return None
+        if sb > prev_end:
+            bad = layout_only(prev_end, sb)
+            if bad:
+                return bad
+        prev_end = max(prev_end, end)
+    return layout_only(prev_end, len(raw))
+
